@@ -208,13 +208,18 @@ def _boundary_case(E, tag, mdim, fdim, kinds, mode, skip, canary=False):
                 preds.append((lambda arr: lambda p: E.at(arr, p))(arr))
     if skip is not None:
         kw["skip"] = skip
+    # name=: "Name of the boundary" -- a label only: stored, and without influence on the selection (the obligations
+    # below are the same with and without it); the default name is kept where none is given
+    bname = "left edge / u_x" if mode == "and" or skip is not None else None
+    if bname is not None:
+        kw["name"] = bname
     with E.run(DB):
         b = felupe.Boundary(f, mode=mode, value=1.5, **kw)
     comb = E.Or if mode == "or" else E.And
     sel = lambda p: comb(*[q(p) for q in preds])  # noqa: E731  (empty or = False, empty and = True)
     skipped = [bool(skip[i]) if skip is not None else False for i in range(fdim)]
     _boundary_obligations(E, tag, b, f, n, fdim, lambda p, i: E.And(sel(p), E.Not(E.pick(skipped, i))), [i for i in range(fdim) if not skipped[i]], canary)
-    E.check(f"{tag}/attributes", b.field is f and b.dim == fdim and b.value == 1.5 and b.mode == mode, "field, dim, value, mode stored")
+    E.check(f"{tag}/attributes", b.field is f and b.dim == fdim and b.value == 1.5 and b.mode == mode and b.name == (bname or "default"), "field, dim, name, value, mode stored")
 
 
 def _boundary_obligations(E, tag, b, f, n, fdim, mask2d, kept, canary=False, uniform=True):
